@@ -29,6 +29,12 @@ CHECKS["C04"] = dict(cat="exploration", technique="exhaustive enumeration of pro
                   "is executed by refinterp on the un-linked module and by the interpreter and gen -O0..-O3 after MIR_link; the same is repeated with a library built with MIR_MAX_INSNS_FOR_INLINE=MIR_MAX_INSNS_FOR_CALL_INLINE=0.",
              note="oracle = core/refinterp.c executing the IR as written (before MIR_load_module); unspecified behaviour skipped; one known finding shared with C01 (store lowering between overflow insn and branch)",
              ref="§3 C04")
+CHECKS["C10"] = dict(cat="exploration", technique="exhaustive enumeration of a module vocabulary (opcode x operand form, item kinds and adjacency pairs, every string byte, boundary immediates, size cases) through MIR_output / MIR_scan_string",
+             text="Every case is written with MIR_output, scanned in a fresh context and written again: the two texts must be identical, the two modules must be equal when compared through the API (items, operands, label attachment, data bytes), the writer must return, and executable cases must interpret identically; run on the prod and asan builds.",
+             note="vocabulary defined in gen/mirvocab.py; modules after MIR_load_module and non-finite fp immediates (no text syntax) are outside the check", ref="§3 C10")
+CHECKS["C11"] = dict(cat="exploration", technique="exhaustive enumeration of the same module vocabulary plus non-finite/payload fp immediates through MIR_write / MIR_read, bit-exact API-level comparison",
+             text="Every case is written twice through callbacks and once to a file (all three byte streams must be identical), read back in a fresh context, and compared: MIR_output text, every immediate and data byte bit for bit (NaN payloads, long doubles, strings with NULs), label attachment of lref items, and interpretation results of executable cases.",
+             note="sizes from empty modules to 70000 names/labels and multi-buffer compressed images in the thorough tier; prod and asan builds", ref="§3 C11")
 NOT_YET = {}
 def main():
     props = [json.loads(l) for l in open(os.path.join(VERIF, "properties.jsonl"))]
